@@ -36,13 +36,14 @@ ENCODED = [wire._deserialize_params, wire._deserialize_value, wire._validate_cal
 BOUNDS = (
     "shape: 0..3 declared parameters x 0..%d request columns (names from a %d-name alphabet incl. 'ctx', 3 opaque type tokens, nullable flags); "
     "values: 0..%d parameters x {optional, enum-typed, defaulted} x {None, valid, unknown enum member}; "
-    "full pipeline: 0..%d parameters x 0..2 columns, everything symbolic; validator order taken from the three live dispatch sites."
+    "full pipeline: 0..%d parameters x 0..2 columns, everything symbolic; validator order taken from the three live dispatch sites; "
+    "delivery routes: real _read_request + validators on 4 routes x 384 perturbations of a real 3-column request batch."
 ) % (pick(3, 4), pick(4, 5), pick(2, 3), pick(1, 2))
 OUTSIDE = (
     "Arrow type equality itself (field.type != declared.type is C++; types are opaque tokens, so 'compatible widening' == 'different token'); "
     "dataclass / dict / frozenset parameters of _deserialize_value; duplicate column names beyond what the name alphabet produces; "
     "the HTTP 400 vs error-stream mapping of the raised exception and 'the method's own TypeError is not a request error' at the dispatch sites "
-    "(only the order of the validator calls is read from the sites; the sites themselves run in the replay only); _read_request."
+    "(only the order of the validator calls is read from the sites; the sites themselves run in the replay only); _read_request's metadata checks (C05); the real shm / external-location resolvers (contract stubs in (D), real shm in its replay)."
 )
 ASSUMPTIONS = [
     "kwargs are built from the request columns exactly as _read_request does ({field.name: value}); the request schema reaches the validators through the real context variable",
@@ -403,3 +404,232 @@ def _replay_b(a: dict) -> str | None:
 
 def _replay_c(a: dict) -> str | None:
     return _real_replay(a["n"], a["dopt"], a["ddef"], a["den"], a["dtok"], a["m"], a["rname"], a["rtok"], a["rnull"], a["rval"], names=_NAMES_C)
+
+
+# ---------------------------------------------------------------------------
+# (D) the columns that are validated are the columns the kwargs came from — on every delivery route
+# ---------------------------------------------------------------------------
+# _read_request builds kwargs from the batch *after* resolving an external-location / shared-memory
+# pointer; the schema it records for _validate_call_signature must be that same batch's.  Real
+# pyarrow, real _read_request bytecode (pointer resolution = contract stubs), real validators and a
+# real declared schema; the delivery route and the perturbation of the real batch are symbolic.
+
+from io import BytesIO  # noqa: E402
+from typing import Protocol  # noqa: E402
+
+import pyarrow as pa  # noqa: E402
+from pyarrow import ipc  # noqa: E402
+
+from engine.reglob import reglobalize  # noqa: E402
+from vgi_rpc import metadata as _md  # noqa: E402
+from vgi_rpc.rpc import rpc_methods  # noqa: E402
+
+
+class _RouteProto(Protocol):
+    def m(self, a: int, b: float, c: str | None) -> int: ...
+
+
+_RINFO = rpc_methods(_RouteProto)["m"]
+_RDECL = _RINFO.params_schema  # a: int64 not null, b: double not null, c: string (nullable)
+_R_ALT = (pa.int32(), pa.int64(), pa.large_string())  # a "different Arrow type" per column (incl. castable ones)
+_R_VAL = ((1, 1), (2.5, 2), ("s", "s"))  # value under (declared, alternative) type
+_ROUTE_INLINE, _ROUTE_SHM_STATIC, _ROUTE_SHM_ATTACH, _ROUTE_EXTERNAL = 0, 1, 2, 3
+_FS_SAME, _FS_EXTRA, _FS_MISSING, _FS_RENAMED = 0, 1, 2, 3
+_PERMS = ((0, 1, 2), (0, 2, 1), (1, 0, 2), (1, 2, 0), (2, 0, 1), (2, 1, 0))
+_R: dict = {"inner": None, "released": 0, "closed": 0}
+_LOCATION_KEY = _md.LOCATION_KEY
+
+
+def _route_inner(perm: int, retype: int, nullflip: int, fieldset: int) -> pa.RecordBatch:
+    """The real single-row request batch: declared columns, perturbed.
+
+    retype / nullflip: index of the one column that is retyped / nullability-flipped (3 = none)."""
+    fields, arrays = [], []
+    for pos in _PERMS[perm]:
+        if fieldset == _FS_MISSING and pos == 2:
+            continue
+        d = _RDECL.field(pos)
+        typ = _R_ALT[pos] if retype == pos else d.type
+        name = "renamed" if (fieldset == _FS_RENAMED and pos == 0) else d.name
+        fields.append(pa.field(name, typ, nullable=(not d.nullable) if nullflip == pos else d.nullable))
+        arrays.append(pa.array([_R_VAL[pos][1 if retype == pos else 0]], type=typ))
+    if fieldset == _FS_EXTRA:
+        fields.append(pa.field("extra", pa.int64(), nullable=False))
+        arrays.append(pa.array([1], type=pa.int64()))
+    return pa.RecordBatch.from_arrays(arrays, schema=pa.schema(fields))
+
+
+def _route_request(route: int, inner: pa.RecordBatch) -> bytes:
+    kv = {_md.RPC_METHOD_KEY: b"m", _md.REQUEST_VERSION_KEY: _md.REQUEST_VERSION}
+    if route == _ROUTE_INLINE:
+        wire_batch = inner
+    else:
+        # 0-row pointer batch advertising the declared schema; the real batch lives elsewhere
+        wire_batch = pa.RecordBatch.from_arrays([pa.nulls(0, type=f.type) for f in _RDECL], schema=_RDECL)
+        if route == _ROUTE_EXTERNAL:
+            kv[_LOCATION_KEY] = b"https://storage.example/obj"
+        else:
+            kv[_md.SHM_OFFSET_KEY] = b"64"
+            kv[_md.SHM_LENGTH_KEY] = b"512"
+            if route == _ROUTE_SHM_ATTACH:
+                kv[_md.SHM_SEGMENT_NAME_KEY] = b"seg"
+                kv[_md.SHM_SEGMENT_SIZE_KEY] = b"4096"
+    b = BytesIO()
+    with ipc.new_stream(b, wire_batch.schema) as w:
+        w.write_batch(wire_batch, custom_metadata=pa.KeyValueMetadata(kv))
+    return b.getvalue()
+
+
+class _FakeSegment:
+    def close(self) -> None:
+        _R["closed"] += 1
+
+
+def _stub_resolve_shm(batch, custom_metadata, shm):  # type: ignore[no-untyped-def]
+    """Contract of resolve_shm_batch: a pointer batch + segment yields the batch the client wrote there."""
+    if shm is None or custom_metadata is None or custom_metadata.get(_md.SHM_OFFSET_KEY) is None or batch.num_rows != 0:
+        return batch, custom_metadata, None
+
+    def release() -> None:
+        _R["released"] += 1
+
+    return _R["inner"], custom_metadata, release
+
+
+def _stub_resolve_external(batch, custom_metadata, config, *a, **k):  # type: ignore[no-untyped-def]
+    """Contract of resolve_external_location: a pointer batch + config yields the fetched batch."""
+    if config is None or custom_metadata is None or custom_metadata.get(_LOCATION_KEY) is None:
+        return batch, custom_metadata
+    return _R["inner"], custom_metadata
+
+
+_read_request_rg = reglobalize(wire._read_request, resolve_shm_batch=_stub_resolve_shm, resolve_external_location=_stub_resolve_external)
+_ROUTE_STUBS = [
+    "resolve_shm_batch := a pointer batch + segment yields the batch the client placed in the segment (+ release callback)",
+    "resolve_external_location := a pointer batch + config yields the fetched batch",
+]
+
+
+def _route_conforms(inner: pa.RecordBatch) -> bool:
+    """Reference, from the property statement: names, order, Arrow types and nullability equal the declared ones."""
+    if len(inner.schema) != len(_RDECL):
+        return False
+    for i in range(len(_RDECL)):
+        f, d = inner.schema.field(i), _RDECL.field(i)
+        if f.name != d.name or f.type != d.type or f.nullable != d.nullable:
+            return False
+    return True
+
+
+def _route_run(seq: tuple, route: int, inner: pa.RecordBatch):  # type: ignore[no-untyped-def]
+    _R["inner"] = inner
+    _R["released"] = 0
+    _R["closed"] = 0
+    stream = BytesIO(_route_request(route, inner))
+    tok = _current_request_param_schema.set(None)
+    invoked = False
+    exc = None
+    try:
+        try:
+            _, kwargs = _read_request_rg(
+                stream,
+                IpcValidation.FULL,
+                object() if route == _ROUTE_EXTERNAL else None,
+                _FakeSegment() if route == _ROUTE_SHM_STATIC else None,
+                (lambda cm: _FakeSegment()) if route == _ROUTE_SHM_ATTACH else None,
+            )
+            for step in seq:
+                if step == "_deserialize_params":
+                    wire._deserialize_params(kwargs, _RINFO.param_types, IpcValidation.FULL)
+                elif step == "_validate_call_signature":
+                    wire._validate_call_signature("m", kwargs, _RINFO.param_types, _RINFO.param_defaults, _RINFO.params_schema)
+                else:
+                    wire._validate_params("m", kwargs, _RINFO.param_types)
+            invoked = True  # the implementation would be called here
+        except Exception as e:  # noqa: BLE001
+            exc = e
+    finally:
+        _current_request_param_schema.reset(tok)
+    return invoked, exc
+
+
+@cond(q=60, t=240, encoded=[wire._read_request] + ENCODED, stubs=_ROUTE_STUBS, replay=lambda a: _replay_route(a), signature=lambda a, c: "C06:delivery-route:validated-schema-is-not-the-kwargs-schema",
+      bound="declared m(a: int, b: float, c: str | None); delivery route inline / shm (static segment) / shm (attached segment) / external location x real batch = 6 column orders x one-or-no column retyped x one-or-no column nullability-flipped x field set same / extra / missing / renamed (1536 requests)")
+def validated_columns_are_the_delivered_columns(route: int, perm: int, retype: int, nullflip: int, fieldset: int) -> bool:
+    """
+    pre: 0 <= route <= 3 and 0 <= perm <= 5 and 0 <= retype <= 3 and 0 <= nullflip <= 3 and 0 <= fieldset <= 3
+    post: _
+    """
+    r = _concrete(route, 4)
+    inner = _route_inner(_concrete(perm, 6), _concrete(retype, 4), _concrete(nullflip, 4), _concrete(fieldset, 4))
+    want = _route_conforms(inner)
+    for seq in _SEQUENCES:
+        invoked, exc = _route_run(seq, r, inner)
+        if invoked != want:
+            return False
+        if not invoked and not isinstance(exc, (TypeError, KeyError, ValueError)):
+            return False
+        # the side channel is always released / detached, accepted or not
+        if r in (_ROUTE_SHM_STATIC, _ROUTE_SHM_ATTACH) and _R["released"] != 1:
+            return False
+        if r == _ROUTE_SHM_ATTACH and _R["closed"] != 1:
+            return False
+    return True
+
+
+def _replay_route(args: dict) -> str | None:
+    """Un-stubbed: real ShmSegment side channel (or inline) through RpcServer.serve_one."""
+    from vgi_rpc.rpc import PipeTransport
+    from vgi_rpc.rpc._common import RpcError
+    from vgi_rpc.shm import ShmSegment, make_shm_pointer_batch
+
+    inner = _route_inner(args["perm"], args["retype"], args["nullflip"], args["fieldset"])
+    want = _route_conforms(inner)
+    calls: list = []
+
+    class Impl:
+        def m(self, a: int, b: float, c: str | None) -> int:
+            calls.append((a, b, c))
+            return 1
+
+    server = srv.RpcServer(_RouteProto, Impl(), server_id="srv")
+    kv = {_md.RPC_METHOD_KEY: b"m", _md.REQUEST_VERSION_KEY: _md.REQUEST_VERSION}
+    seg = None
+    try:
+        if args["route"] == _ROUTE_INLINE:
+            wire_batch = inner
+        else:
+            # (an external-location request needs a live object store; the shm side channel exercises the same code path)
+            seg = ShmSegment.create(1 << 20)
+            offset, length = seg.allocate_and_write(inner)
+            wire_batch, pmd = make_shm_pointer_batch(_RDECL, offset, length)
+            kv.update(dict(pmd.items()))
+            kv[_md.SHM_SEGMENT_NAME_KEY] = seg.name.encode()
+            kv[_md.SHM_SEGMENT_SIZE_KEY] = str(seg.size).encode()
+        req = BytesIO()
+        with ipc.new_stream(req, wire_batch.schema) as w:
+            w.write_batch(wire_batch, custom_metadata=pa.KeyValueMetadata(kv))
+        req.seek(0)
+        resp = BytesIO()
+        server.serve_one(PipeTransport(req, resp))
+        got_error = False
+        try:
+            rd = ipc.open_stream(BytesIO(resp.getvalue()))
+            while True:
+                b, cm = rd.read_next_batch_with_custom_metadata()
+                wire._dispatch_log_or_error(b, cm)
+        except StopIteration:
+            pass
+        except RpcError:
+            got_error = True
+    finally:
+        if seg is not None:
+            seg.close()
+            seg.unlink()
+    invoked = len(calls) == 1
+    if invoked != want or (not invoked and not got_error):
+        return "declared %s; real request batch %s delivered %s: method %s%s" % (
+            str(_RDECL).replace("\n", ", "), str(inner.schema).replace("\n", ", "),
+            "inline" if args["route"] == _ROUTE_INLINE else "through the shared-memory side channel",
+            "invoked with %r" % (calls[0],) if invoked else "not invoked", "" if invoked == want else " but the request %s the contract" % ("conforms to" if want else "violates"))
+    return None
